@@ -353,7 +353,35 @@ fn json_bdd_go<'a, T: IteTable<'a, BddPtr<'a>> + Default>(b: &'a RobddBuilder<'a
         run.step(op);
     }
     let mut nt = false;
-    for (i, (p, t)) in run.pool.iter().enumerate() {
+    // besides the pool: diagrams of other shapes that the same serialiser accepts - two pool functions smoothed over
+    // all variables (don't-care nodes) and compiled top-down from a CNF of theirs (unreduced nodes with constant
+    // children, false high edges)
+    let n_now = run.n;
+    let td = rsdd::builder::decision_nnf::StandardDecisionNNFBuilder::new(rsdd::repr::VarOrder::linear_order(n_now.max(1)));
+    let mut items: Vec<(BddPtr, crate::tt::Tt)> = run.pool.clone();
+    if n_now >= 1 && case.cfg.embed.is_none() {
+        let mut by_support: Vec<usize> = (0..run.pool.len()).collect();
+        by_support.sort_by_key(|i| std::cmp::Reverse(run.pool[*i].1.support_size()));
+        for i in by_support.into_iter().take(2) {
+            let (p, t) = run.pool[i];
+            let sm = b.smooth(p, b.num_vars());
+            items.push((sm, t));
+            let walked = bdd_tt(p);
+            if !walked.is_const() {
+                let mut clauses: Vec<Vec<rsdd::repr::Literal>> = Vec::new();
+                for a in 0..(1usize << n_now) {
+                    if !walked.get(a) {
+                        clauses.push((0..n_now).map(|v| rsdd::repr::Literal::new(rsdd::repr::VarLabel::new_usize(v), (a >> v) & 1 == 0)).collect());
+                    }
+                }
+                let d = rsdd::builder::decision_nnf::DecisionNNFBuilder::compile_cnf_topdown(&td, &rsdd::repr::Cnf::new(&clauses));
+                items.push((d, t));
+                st.bump("json.bdd.top_down_diagrams");
+            }
+            st.bump("json.bdd.smoothed_diagrams");
+        }
+    }
+    for (i, (p, t)) in items.iter().enumerate() {
         let ser = BDDSerializer::from_bdd(*p);
         let v = serde_json::to_value(&ser).map_err(|e| Failure {
             signature: "C17/json-bdd-not-serialisable".into(),
@@ -396,7 +424,7 @@ fn json_bdd_go<'a, T: IteTable<'a, BddPtr<'a>> + Default>(b: &'a RobddBuilder<'a
 impl SubCheckT for JsonBdd {
     type Case = JsonBddCase;
     const NAME: &'static str = "json_bdd";
-    const RULE: &'static str = "every entry of a BDD pool built by a <=30-op history (constants, literals, shared nodes, complemented roots and edges): serde_json of BDDSerializer::from_bdd, read by the harness's own reader as nodes[i] = {topvar, low, high} with pointers True / False / {Ptr:{index, compl}} (children defined before use), denotes the truth table read off the in-memory diagram (node-table length recorded only). Non-trivial: a diagram with a shared node or a complemented edge";
+    const RULE: &'static str = "every entry of a BDD pool built by a <=30-op history (constants, literals, shared nodes, complemented roots and edges), and two of its functions smoothed over all variables and compiled top-down from their CNF (don't-care nodes, unreduced nodes, false high edges): serde_json of BDDSerializer::from_bdd, read by the harness's own reader as nodes[i] = {topvar, low, high} with pointers True / False / {Ptr:{index, compl}} (children defined before use), denotes the truth table read off the in-memory diagram (node-table length recorded only). Non-trivial: a diagram with a shared node or a complemented edge";
     fn cases(tier: Tier) -> u32 {
         tier.pick(3000, 50_000)
     }
